@@ -87,8 +87,7 @@ class Stepper(object):
             rejected = resp is not None or raised is not None
             if anonymous:
                 self.classes.add("anonymous_request")
-                if not (isinstance(resp, tuple) and resp[1] == 403):
-                    bad("c13_anonymous_not_refused", "anonymous request answered %r" % (resp,))
+                # (how the refusal is signalled - status tuple, exception - is not part of the statement)
                 if changed or new:
                     bad("c13_anonymous_changes", "anonymous request changed the list or notified clients")
             elif rejected:
